@@ -49,6 +49,7 @@ class Monitor(object):
         self.check = self.u.check_event_code
         self.norm = self.u.normalize_event_code
         self.weights = {}     # (event, gender) -> {band: kg}
+        self.ambient = None   # description of the perturbed process-wide state the current calls run under
 
     def on_weight(self, args, kwargs, out):
         ctx = self.ctx
@@ -103,9 +104,13 @@ class Monitor(object):
         if len(args) < 3:
             return
         e, g, ag = args[:3]
-        if not isinstance(e, str) or not isinstance(ag, str):
+        if not isinstance(e, str):
             return
         case = {'e': e, 'g': g, 'ag': ag}
+        if self.ambient:
+            case['ambient'] = self.ambient
+        if e in THROWS and not isinstance(ag, str):
+            return
         if e not in THROWS:
             if not out.ok or out.value != e:
                 ctx.violation('specific:non-throw-not-passed-through', case, e, repr(out))
@@ -226,7 +231,33 @@ def run_shard(ctx, spec):
         prev = t
         ctx.count('eval.repeated-triple')
     mon.check_masters()
-    # non-throw codes pass through
+    # ambient state: the answers must not depend on process-wide settings an embedding application may have changed - here
+    # the thread's decimal context (precision, rounding, traps).  The monitor itself uses floats and patterns only.
+    import decimal
+    for prec, rounding in ((3, decimal.ROUND_HALF_EVEN), (2, decimal.ROUND_UP), (1, decimal.ROUND_DOWN)):
+        with decimal.localcontext() as dctx:
+            dctx.prec = prec
+            dctx.rounding = rounding
+            dctx.traps[decimal.Inexact] = False
+            mon.ambient = 'decimal context prec=%d %s' % (prec, rounding)
+            for e in THROWS:
+                for g in ('M', 'F'):
+                    for ag in labels[:: (1 if prec == 3 else 5)]:
+                        attach.call(mon.spec, e, g, ag)
+                        ctx.count('eval.under-perturbed-decimal-context')
+    mon.ambient = None
+    # non-throw codes pass through - whatever the gender and age group are (they are not looked at for these)
+    for c in ('100', '4x400', 'HJ', 'LJ', 'MAR', 'DEC', '110H', '3000SC', 'XC', 'sp', 'Dt', 'SP4K', 'WT15.88K', '', 'nonsense'):
+        for g in ('M', 'F', 'X', '', 'm', 'f', 'W', 'Male', 'female', 'B', 'G', None, 0):
+            for ag in ('SEN', 'U13', 'V40', '', 'weird', None):
+                attach.call(mon.spec, c, g, ag)
+                ctx.count('eval.pass-through-with-odd-gender-or-group')
+    # throws with a gender that is neither M nor F: no tabulated weight, so a valid code or pass-through and no exception
+    for e in THROWS:
+        for g in ('X', '', 'm', 'f', 'W', 'Male', 'B'):
+            for ag in ('SEN', 'U13', 'V40', 'V75', ''):
+                attach.call(mon.spec, e, g, ag)
+    # non-throw codes from the pattern
     cm = sys.modules['athlib.codes']
     n = 5000 if ctx.tier == 'quick' else 100000
     g = relang.Gen(cm.PAT_EVENT_CODE, seed=ctx.seed, ascii_only=True)
